@@ -69,6 +69,7 @@ macro_rules! c17_truncate {
 c17_truncate!(c17_truncate_n3, 3);
 c17_truncate!(c17_truncate_n4, 4);
 c17_truncate!(c17t_truncate_n5, 5);
+c17_truncate!(c17t_truncate_n6, 6);
 
 // ---- (a) the log writer ------------------------------------------------------------------------------------
 mod log_append_slice {
@@ -371,3 +372,4 @@ macro_rules! c17_page {
 c17_page!(c17_page_n5_p4, 5, 4, 1, 9);
 c17_page!(c17t_page_n6_p4, 6, 4, 2, 9);
 c17_page!(c17t_page_n6_p5, 6, 5, 1, 9);
+c17_page!(c17t_page_n7_p4, 7, 4, 3, 10);
